@@ -455,6 +455,9 @@ class LocalConcurrences:
                                   0, len(self.series2) + 1, False)
         else:
             wp = self._wp
+            # Cells of earlier matches were marked by negating them (the compact version positivizes them again)
+            marked = np.isfinite(wp.data) & (wp.data < 0)
+            wp.data[marked] = -wp.data[marked]
             if self.window is None:
                 wp.mask = False
             else:
